@@ -27,6 +27,7 @@ from .values import (
     State,
     SuperVal,
     View,
+    XReal,
     is_z3,
 )
 
@@ -147,9 +148,6 @@ class ExprMixin(EngineCore):
         return out
 
     def binop_ext(self, st, op, a, b, e):
-        if isinstance(a, float) or isinstance(b, float):
-            # concrete infinities only
-            return self.float_binop(op, a, b)
         if isinstance(a, Ref) and META[a.oid].kind == "list" and isinstance(b, Ref) and META[b.oid].kind == "list":
             return self.new_list(st, st.get(a, "items") + st.get(b, "items"))
         return ops.binop(st, op, a, b)
@@ -245,7 +243,7 @@ class ExprMixin(EngineCore):
 
     def compare_ext(self, st, op, a, b):
         inf = float("inf")
-        if isinstance(a, float) or isinstance(b, float):
+        if False:
             # comparisons with a concrete infinity; symbolic reals are finite by construction
             if isinstance(a, float) and isinstance(b, float):
                 return z3.BoolVal({ast.Eq: a == b, ast.NotEq: a != b, ast.Lt: a < b, ast.LtE: a <= b, ast.Gt: a > b, ast.GtE: a >= b}[type(op)])
@@ -279,6 +277,9 @@ class ExprMixin(EngineCore):
                         b = ops.lift(b.val)
                     if ops.is_byteslike(a) and ops.is_byteslike(b):
                         a, b = ops.as_bytes(s, a), ops.as_bytes(s, b)
+                    if isinstance(a, XReal) or isinstance(b, XReal):
+                        out.append((s, ops.xr_ite(c, ops.xr(a), ops.xr(b))))
+                        continue
                     if is_z3(a) and is_z3(b):
                         if a.sort() != b.sort():
                             a, b = ops.to_real(a), ops.to_real(b)
